@@ -43,6 +43,11 @@ CHECKS = {
     note="The pinned tree used shlex.split(posix=False), which split and re-spaced string literals that start inside a word (component_id='a  b' came back as 'a             b'): repaired by a fix: commit introducing the quote-aware splitter that is modelled. 'Parses to the same syntax tree' is checked with CPython's ast on generated statements, not proved (Python's lexical grammar is not modelled); Fortran free-form continuation is represented by: non-final lines end in '&', no character literal is split.",
     technique="Lean 4 proof (loop invariants over the chunking loop, state-machine invariant over the splitter) over hand-written model; exhaustive small-scope + random differential correspondence; independent tokenizer + ast oracle",
     ref="7/C20"),
+ "C13": dict(
+    text="Lean 4 theorems for EVERY name, every set of names in use and every history of look-ups over the model of make_identifier_from_name, KeyToUniqueNameMap, pytools.UniqueNameGenerator and the Python/Fortran name managers: the sanitiser returns a non-empty run of ASCII identifier characters not starting with '_'; the generator never fails (pigeonhole over pairwise different numbered candidates, decimal rendering injective, also after case folding); a returned name was free, is taken afterwards, nothing is forgotten, hence ALL names of one generator are pairwise different under the target's comparison (case-folded for Fortran, where one generator is shared by locals, globals and functions); repeated look-ups are stable; distinct keys never share an identifier; Python per-step names are 'local'+identifier characters, never a keyword; persistent names go to instance/state storage and only they. Correspondence: every identifier returned by the real managers on ALL names of length <= 2 over an adversarial alphabet (single and ordered pairs, repeated look-ups), random name sets with tags, generated-looking names, case variants, long names, interleaved make_unique_fortran_name/name_refcount; make_identifier_from_name on every code point < 0x300.",
+    note="pytools.UniqueNameGenerator is third-party: modelled (regex on ASCII, numbered candidates) and validated by the correspondence run. Four known findings (over-long Fortran names, function identifiers without sanitising prefix in both targets, IR names starting with 'dagrt_') are exactly the clauses of the property that are false on the code and are therefore not theorems; the case-insensitivity defect was repaired by a fix: commit.",
+    technique="Lean 4 proof (invariants over the look-up history, pigeonhole, list/string lemmas) over hand-written model; exhaustive short-name + random differential correspondence; direct legality/distinctness/stability oracle on the real managers",
+    ref="7/C13"),
 }
 
 NOT_APPLICABLE = {}
